@@ -53,11 +53,31 @@ def maporder_across_processes(c):
 
 
 CONFIG = {
+    "C19": {
+        "profiles": BOTH,
+        "rule": "one evaluation = one compile, or one execution of an original / revived program; distinct non-trivial = distinct sources whose bytecode has more than one "
+                "instruction or whose constant is not a plain integer",
+        "floors": {"quick": {"_evaluations": 300000, "roundtrips/json": 50000, "roundtrips/bincode": 50000,
+                             "variant/Float": 1000, "variant/Bytes": 500, "variant/TimeStamp": 200, "variant/Duration": 200, "variant/Err": 500, "variant/ByteCode": 5000,
+                             "variant/Type": 2, "variant/Map": 500, "variant/List": 1000, "variant/Null": 500, "variant/UInt": 500, "variant/Ident": 5000,
+                             "variant/JmpCond": 5000, "variant/FmtString": 50, "variant/MkDict": 500, "variant/Access": 500, "variant/Call": 5000},
+                   "thorough": {"_evaluations": 3000000}},
+        "assumptions": ASSUME_COMMON + [
+            "timestamps and durations in constants are generated at millisecond resolution, as the statement restricts",
+            "errors are compared by CelError variant; values bit-exactly",
+            "the wasm binding cannot be built in this image; its serialisation entry points are the same two serde calls"],
+        "technique": "runtime monitoring with a round-trip differential oracle: original vs deserialised program (serde_json and bincode) under several bindings, plus "
+                     "source / parameter equality, second-round-trip stability and a coverage floor over the CelValue / ByteCode variants seen in serialised form",
+        "level_text": "38 constant-rich templates (error constants, non-finite doubles, extreme integers, invalid-UTF-8 bytes, types, timestamps, durations, nested containers, nested "
+                      "blocks), the corpus and generated constant-rich programs are serialised to JSON and bincode, read back and executed under three binding sets; serialisation and "
+                      "deserialisation must succeed, outcomes must agree, source and parameters must be equal. Exploration only.",
+        "level_note": "trusts canonical value rendering; JSON parameter order (a hash set) is normalised before comparing documents",
+    },
     "C16": {
         "profiles": BOTH,
         "rule": "one evaluation = one time expression, accessor call or unit conversion; distinct non-trivial = distinct instants / durations / zone names / unit pairs",
         "floors": {"quick": {"_evaluations": 500000, "zones_exercised": 500, "accessor_zoned": 100000, "accessor_utc": 50000, "unknown_zone_checks": 500,
-                             "law/(t+d)-d==t": 5000, "duration_accessor_checks": 50000, "unit_conversions": 10000, "unit_rejections": 500},
+                             "law/(t+d)-d==t": 5000, "duration_accessor_checks": 50000, "unit_conversions": 5000, "unit_rejections": 500},
                    "thorough": {"_evaluations": 5000000}},
         "assumptions": ASSUME_COMMON + [
             "chrono_tz is trusted for the time-zone database (UTC offsets per instant) only; civil fields come from an independent days-to-civil algorithm",
